@@ -3,11 +3,11 @@
 A case line is  "se <seed> <session_timeout_s> <max_idle_sessions> <op>*"  (ops documented in the
 driver).  All randomness comes from the random.Random handed in (tie.rng_for)."""
 
-RX_KINDS = "gcsoOdDahbnBxve"
+RX_KINDS = "gcsoOdDahbnBxvem"
 # weights: plain traffic dominates, every reference holder appears regularly
 RX_WEIGHTS = {
     "g": 10, "c": 6, "s": 6, "o": 5, "O": 5, "d": 2, "D": 2, "a": 4, "h": 4,
-    "b": 2, "n": 2, "B": 0, "x": 1, "v": 1, "e": 1,
+    "b": 2, "n": 2, "B": 1, "x": 1, "v": 1, "e": 1, "m": 3,
 }
 
 
@@ -50,7 +50,7 @@ def gen_history(r, stale_etag=False, max_peers=None):
     elif focus == "observe":
         weights.update({"o": 12, "O": 12, "d": 5, "D": 5})
     elif focus == "queue":
-        weights.update({"s": 14, "a": 8, "O": 8})
+        weights.update({"s": 14, "a": 8, "O": 8, "m": 8})
     advs = boundary_advances(timeout)
     ops = []
     peers = list(range(npeers))
@@ -130,4 +130,7 @@ def boundary_cases():
     out.append("se 20 2 2 rx:0:a rx:1:a adv:2000 prep adv:2000 prep ack:0 adv:100000 prep")
     # block-wise response state hanging off a session that is reclaimed / torn down
     out.append("se 21 1 0 rx:0:b rx:0:n adv:1000 prep rx:1:b free")
+    # multicast request: the delayed response (queue node) keeps the session past its timeout
+    out.append("se 22 1 0 rx:0:m rx:1:m rx:0:g adv:1000 prep adv:1000 prep adv:3000 prep adv:1000 prep")
+    out.append("se 23 1 1 rx:0:m rx:1:g rx:2:g rx:3:m adv:5000 prep rx:4:g free")
     return out
